@@ -214,6 +214,8 @@ def is_admissibility_exit(o) -> bool:
     appended) with a constant bound: the model rejects an inadmissible state instead of reporting it (C18)."""
     if o.kind != "raise" or not o.trace:
         return False
+    if not isinstance(getattr(o.exc, "node", None), ast.Raise):
+        return False   # only an explicit `raise` statement is a rejection; an IndexError / AttributeError of the code itself is not
     cond, dec = o.trace[-1]
     while isinstance(cond, tuple) and cond and cond[0] == "not":
         cond = cond[1]
@@ -241,6 +243,20 @@ def evaluate(repo: Repo, func: FuncInfo, tier="quick", modes=("vac", "T", "p"), 
                 continue
             out.append(PM(repo, func, label, meta, o) if o.kind == "return" else (label, meta, o))
     return out
+
+
+def split_models(ck, rule, func, results):
+    """The evaluated models of func; every path that ends in an exception of the code itself (not an explicit rejection) is
+    reported under rule: the property's obligations cannot be discharged on a path the model does not complete."""
+    models = []
+    for r in results:
+        if isinstance(r, PM):
+            models.append(r)
+            continue
+        label, meta, o = r
+        ck.ob(rule, func.qualname, "run completes [%s]" % label, getattr(o.exc, "where", None) or func.loc(), False,
+              "the model raises %s on this admissible configuration: %s" % (o.exc.exc_type, o.exc.msg))
+    return models
 
 
 def oracle(pm: PM, src: str, **env) -> Val:
